@@ -24,13 +24,21 @@ TRUSTED_BASE = [
 
 
 def sh(cmd, cwd=None, timeout=None, stdin=None, env=None):
+    # own process group: on a time-out the whole tree (lake -> lean, harness -> goroutines) is killed
+    p = subprocess.Popen(cmd, cwd=cwd, env=env or ENV, stdout=subprocess.PIPE, stderr=subprocess.PIPE,
+                         stdin=subprocess.PIPE if stdin is not None else None, shell=isinstance(cmd, str), start_new_session=True)
     try:
-        p = subprocess.run(cmd, cwd=cwd, env=env or ENV, stdout=subprocess.PIPE, stderr=subprocess.PIPE,
-                           timeout=timeout, input=stdin, shell=isinstance(cmd, str))
-    except subprocess.TimeoutExpired as e:
-        # a harness that does not finish is reported by the callers as a crash (exit 124), never as a Python error
-        return 124, (e.stdout or b"").decode(errors="replace"), (e.stderr or b"").decode(errors="replace") + "\nTIMEOUT after %ss: %s" % (timeout, cmd if isinstance(cmd, str) else " ".join(map(str, cmd[:6])))
-    return p.returncode, p.stdout.decode(errors="replace"), p.stderr.decode(errors="replace")
+        out, err = p.communicate(input=stdin, timeout=timeout)
+    except subprocess.TimeoutExpired:
+        import signal
+        try:
+            os.killpg(p.pid, signal.SIGKILL)
+        except ProcessLookupError:
+            pass
+        out, err = p.communicate()
+        # a command that does not finish is reported by the callers as a failure (exit 124), never as a Python error
+        return 124, out.decode(errors="replace"), err.decode(errors="replace") + "\nTIMEOUT after %ss: %s" % (timeout, cmd if isinstance(cmd, str) else " ".join(map(str, cmd[:6])))
+    return p.returncode, out.decode(errors="replace"), err.decode(errors="replace")
 
 
 class Lock:
@@ -123,10 +131,12 @@ def regenerate(run):
     return ok
 
 
-def lake_build(run, targets, label=None):
+def lake_build(run, targets, label=None, timeout=3000):
     with Lock("lake"):
-        rc, out, err = sh(["lake", "build"] + targets, cwd=LEAN, timeout=3000)
+        rc, out, err = sh(["lake", "build"] + targets, cwd=LEAN, timeout=timeout)
     txt = out + err
+    if rc == 124:
+        return False, "lake build %s did not finish within %d s (a proof script that no longer terminates on the regenerated syntax is a broken obligation)\n" % (" ".join(targets), timeout) + txt[-3000:]
     if rc != 0:
         # keep only error lines for the replay file
         errs = [l for l in txt.splitlines() if "error" in l.lower()][:40]
